@@ -17,7 +17,11 @@ _tags = set()
 
 def B(name, default=None):
     # a shard may override a bound of its tier: key 'b.<NAME>' in the shard
-    v = SHARD.get('b.' + name, BOUNDS.get(name, default))
+    v = SHARD.get('b.' + name)
+    if v is None:
+        v = BOUNDS.get(name)
+    if v is None:
+        v = default
     assert v is not None, 'bound %s not set' % name
     return v
 
